@@ -130,7 +130,7 @@ func (x *Ctx) queryRows(c *rosmar.Collection, stmt string, absKey func(string) s
 		if h, ok := row["body"]; ok {
 			b, _ := hex.DecodeString(h)
 			if len(b) == 0 {
-				b = nil
+				b = []byte{} // $_keyspace only lists documents that have a body
 			}
 			x.crc.note(b)
 			r.Body = AbstractBody(b)
